@@ -63,16 +63,22 @@ def schedules(scn, program, rng):
     places its change points uniformly inside that length.
     """
     desc = pick_strategy(rng)
+    cseed = rng.getrandbits(48)
+    pzero = rng.choice([0.3, 0.6, 0.9])
+
+    def chooser():
+        return core.RandomChooser(random.Random(cseed), pzero)
+
     if desc[0] == "walk":
-        s, viol, stats = scn.run(program, core.RandomWalk(rng, desc[1], desc[2]))
+        s, viol, stats = scn.run(program, core.RandomWalk(rng, desc[1], desc[2]), chooser())
         yield desc, s, viol, stats
         return
     _, d, prio_seed = desc
-    s, viol, stats = scn.run(program, core.PCT(prio_seed, []))
+    s, viol, stats = scn.run(program, core.PCT(prio_seed, []), chooser())
     yield ["pct", 0, prio_seed, []], s, viol, stats
     n = max(2, s.step)
     points = sorted(rng.randrange(n) for _ in range(d))
-    s, viol, stats = scn.run(program, core.PCT(prio_seed, points))
+    s, viol, stats = scn.run(program, core.PCT(prio_seed, points), chooser())
     yield ["pct", d, prio_seed, points], s, viol, stats
 
 
@@ -156,7 +162,7 @@ def _account(agg, i, program, desc, s, viol, stats, props, known):
             continue
         if c not in agg["failures"] and len(agg["failures"]) < 4:
             agg["failures"][c] = {"index": i, "program": program, "trace": sorted(s.trace.items()),
-                                  "msg": v.msg, "digest": dg, "strategy": desc}
+                                  "net": list(s.net_trace), "msg": v.msg, "digest": dg, "strategy": desc}
 
 
 def _plain(x):
@@ -171,9 +177,9 @@ def _plain(x):
 # shrinking
 
 
-def _fails(scn, program, decider, cls):
+def _fails(scn, program, decider, cls, net=None):
     try:
-        s, viol, stats = scn.run(program, decider)
+        s, viol, stats = scn.run(program, decider, core.TapeChooser(net or []))
     except core.HarnessError:
         return None
     for v in viol:
@@ -182,23 +188,31 @@ def _fails(scn, program, decider, cls):
     return None
 
 
-def shrink(scn, program, trace, cls, budget=2500, tries=40):
+def shrink(scn, program, trace, cls, budget=2500, tries=40, net=None):
     """Two-phase minimisation keeping the violation class fixed."""
     used = [0]
     trace = dict(trace)
-    r = _fails(scn, program, core.TapeDecider(trace), cls)
+    budget = getattr(scn, "shrink_budget", budget)
+    tries = getattr(scn, "shrink_tries", tries)
+    t_end = time.time() + float(os.environ.get("VERIF_SHRINK_S", "45"))
+    r = _fails(scn, program, core.TapeDecider(trace), cls, net)
     if r is None:
         return None
     best_prog, best_trace, best_s, best_v = program, dict(r[0].trace), r[0], r[1]
 
     def attempt(cand):
-        # the old tape first, then fresh schedules
+        # the old tapes first, then fresh schedules
         used[0] += 1
-        r = _fails(scn, cand, core.TapeDecider(best_trace), cls)
+        r = _fails(scn, cand, core.TapeDecider(best_trace), cls, best_s.net_trace)
         if r is not None:
             return r
+        if best_s.net_trace:
+            used[0] += 1
+            r = _fails(scn, cand, core.TapeDecider(best_trace), cls, None)
+            if r is not None:
+                return r
         for k in range(tries):
-            if used[0] >= budget:
+            if used[0] >= budget or time.time() > t_end:
                 return None
             rng = random.Random(mix(cls, k, used[0]))
             try:
@@ -212,10 +226,10 @@ def shrink(scn, program, trace, cls, budget=2500, tries=40):
         return None
 
     improved = True
-    while improved and used[0] < budget:
+    while improved and used[0] < budget and time.time() < t_end:
         improved = False
         for cand in scn.shrink_candidates(best_prog):
-            if used[0] >= budget:
+            if used[0] >= budget or time.time() > t_end:
                 break
             r = attempt(cand)
             if r is not None:
@@ -225,13 +239,13 @@ def shrink(scn, program, trace, cls, budget=2500, tries=40):
     # phase 2: the tape (fewer context switches)
     items = sorted(best_trace.items())
     n = 2
-    while len(items) >= 1 and used[0] < budget + 600:
+    while len(items) >= 1 and used[0] < budget + 600 and time.time() < t_end + 15:
         chunk = max(1, len(items) // n)
         removed = False
         for start in range(0, len(items), chunk):
             cand = items[:start] + items[start + chunk:]
             used[0] += 1
-            r = _fails(scn, best_prog, core.TapeDecider(dict(cand)), cls)
+            r = _fails(scn, best_prog, core.TapeDecider(dict(cand)), cls, best_s.net_trace)
             if r is not None:
                 items = sorted(r[0].trace.items())
                 best_trace, best_s, best_v = dict(items), r[0], r[1]
@@ -242,6 +256,25 @@ def shrink(scn, program, trace, cls, budget=2500, tries=40):
             if chunk == 1:
                 break
             n = min(n * 2, len(items))
+    # phase 3: network / fault choices back to the benign alternative (0)
+    nt = list(best_s.net_trace)
+    if any(nt) and used[0] < budget + 900:
+        used[0] += 1
+        r = _fails(scn, best_prog, core.TapeDecider(best_trace), cls, [0] * len(nt))
+        if r is not None:
+            best_trace, best_s, best_v = dict(r[0].trace), r[0], r[1]
+        else:
+            for i in range(len(nt)):
+                if used[0] >= budget + 900 or time.time() > t_end + 25:
+                    break
+                if i < len(nt) and nt[i]:
+                    cand = list(nt)
+                    cand[i] = 0
+                    used[0] += 1
+                    r = _fails(scn, best_prog, core.TapeDecider(best_trace), cls, cand)
+                    if r is not None:
+                        nt = list(r[0].net_trace)
+                        best_trace, best_s, best_v = dict(r[0].trace), r[0], r[1]
     return best_prog, best_trace, best_s, best_v, used[0]
 
 
@@ -276,6 +309,7 @@ def write_replay(scn_name, check_id, prop, cls, msg, program, trace, digest, see
     body = {
         "format": 1, "scenario": scn_name, "check": check_id, "property": prop, "class": cls, "message": msg,
         "program": program, "tape": sorted([int(k), int(v)] for k, v in trace.items()),
+        "net_tape": list(extra.pop("net_tape", [])) if extra else [],
         "expected_digest": digest, "verif_seed": seed, "run_index": index, "tree": env.tree_id(),
     }
     if extra:
@@ -283,7 +317,8 @@ def write_replay(scn_name, check_id, prop, cls, msg, program, trace, digest, see
     tag = hashlib.blake2b(json.dumps([cls, program, body["tape"]], sort_keys=True).encode(), digest_size=5).hexdigest()
     path = os.path.join(d, "%s-%s.json" % (prop, tag))
     with open(path, "w") as fh:
-        json.dump(body, fh, indent=1, sort_keys=True)
+        # key order is part of the program (e.g. the order of keyword arguments): never sort
+        json.dump(body, fh, indent=1)
         fh.write("\n")
     return path
 
@@ -293,7 +328,8 @@ def replay_file(path, scenarios):
     with open(path) as fh:
         body = json.load(fh)
     scn = scenarios[body["scenario"]](body)
-    s, viol, stats = scn.run(body["program"], core.TapeDecider(dict((k, v) for k, v in body["tape"])))
+    s, viol, stats = scn.run(body["program"], core.TapeDecider(dict((k, v) for k, v in body["tape"])),
+                             core.TapeChooser(body.get("net_tape") or []))
     got = [v for v in viol if v.cls == body["class"]]
     lines = []
     ok = bool(got) and s.digest() == body["expected_digest"]
@@ -369,14 +405,15 @@ def run_check(scn_factory, scn_name, check_id, prop, tier, seed, budget_s, jobs,
     replay_paths = []
     for c in sorted(failures):
         f = failures[c]
-        sh = shrink(scn, f["program"], dict(f["trace"]), c)
+        sh = shrink(scn, f["program"], dict(f["trace"]), c, net=f.get("net"))
         if sh is None:
             out_lines.append("HARNESS-ERROR property=%s class=%s found in run %d but did not replay in-process" % (prop, c, f["index"]))
             rc = max(rc, 2)
             continue
         prog, trace, s, v, used = sh
         path = write_replay(scn_name, check_id, prop, c, v.msg, prog, trace, s.digest(), seed, f["index"],
-                            {"shrink_runs": used, "found_with_strategy": f["strategy"], "scenario_args": getattr(scn, "args", None)})
+                            {"shrink_runs": used, "found_with_strategy": f["strategy"], "scenario_args": getattr(scn, "args", None),
+                             "net_tape": list(s.net_trace)})
         ok, text = verify_replay_fresh(path)
         if not ok:
             out_lines.append("HARNESS-ERROR property=%s class=%s replay file %s did not reproduce in a fresh interpreter:\n%s" % (prop, c, path, text))
